@@ -195,3 +195,9 @@ pub fn contract_nanos_to_days_nanos(t: i128, is_ok: bool, d: i32, n: u64) -> boo
 pub fn contract_nanos_to_time(n: u64, h: u32, m: u32, s: u32) -> bool {
     n as i128 >= NPD || (h < 24 && m < 60 && s < 60 && h as u64 * 3600 + m as u64 * 60 + s as u64 == n / 1_000_000_000)
 }
+/// coarse bound used together with the uninterpreted view of spec_rd (oracle_rd_bound_holds proves it of the real one)
+pub fn contract_spec_rd_bound(y: i32, m: u32, d: u32, r: i64) -> bool {
+    let a = astro(y);
+    let mag = if a < 0 { -a } else { a };
+    r - d as i64 >= -366 * (mag + 2) && r - d as i64 <= 366 * (mag + 2)
+}
